@@ -1,6 +1,14 @@
 (* C02 - Storage backend and key layout never change an answer.
-   Only statements closed by [exact]; proofs are in Proofs/. *)
-From DnsV Require Import Base.Bytes Model.Store Proofs.Store.
+   Only statements closed by [exact]; proofs are in Proofs/.
+
+   What is proved concerns the RocksDB read path that the v2 (closest-key) reader adds to the
+   label-by-label one: SeekForPrev, and the per-request context cache shared by exact gets and
+   closest-key lookups (dnsdata/rdb/rdb.go).  [uniq st] : every key is stored once.
+   [closest_sound st c] : every cache entry (search key -> found key, data) is what SeekForPrev
+   returns for the search key - true of the empty cache a request starts with and preserved by
+   everything the closest-key walk does. *)
+From DnsV Require Import Base.Bytes Model.Store Model.LookupV1 Model.LookupV2.
+From DnsV Require Import Spec.Answer Spec.Rows Proofs.ZoneCut Proofs.Store Proofs.Ctx Proofs.CtxFind Proofs.Reverse.
 Open Scope N_scope.
 
 (* SeekForPrev as modelled: the key found is a key of the store, returned with its own rows,
@@ -9,3 +17,74 @@ Theorem C02_seek_prev_sound : forall s probe k v,
   seek_prev s probe = Some (k, v) -> In (k, v) s /\ bleb k probe = true.
 Proof. intros s probe k v H. split; [exact (seek_prev_in s probe k v H) | exact (seek_prev_le s probe k v H)]. Qed.
 Print Assumptions C02_seek_prev_sound.
+
+(* a key that is present is its own closest key *)
+Theorem C02_seek_prev_present : forall st k v, uniq st -> In (k, v) st -> seek_prev st k = Some (k, v).
+Proof. exact seek_prev_present. Qed.
+Print Assumptions C02_seek_prev_present.
+
+(* ctx_cache_transparent, exact gets (the code after repair 6c5e0a8): whatever the cache holds,
+   as long as its exact entries are right, get returns the database's rows and keeps it so *)
+Theorem C02_ctx_get_transparent : forall st c key,
+  get_sound st c -> fst (get_v2 st c key) = get st key /\ get_sound st (snd (get_v2 st c key)).
+Proof. exact get_v2_transparent. Qed.
+Print Assumptions C02_ctx_get_transparent.
+
+(* ctx_cache_transparent, closest-key lookups: with a cache written by FindClosest only,
+   FindClosest returns what SeekForPrev returns and keeps the cache such *)
+Theorem C02_ctx_find_closest_transparent : forall st c key,
+  uniq st -> closest_sound st c ->
+  fst (find_closest st c key) = seek_prev st key /\ closest_sound st (snd (find_closest st c key)).
+Proof. exact find_closest_transparent. Qed.
+Print Assumptions C02_ctx_find_closest_transparent.
+
+(* the literal claim "every FindClosest answered from the cache equals the uncached answer" is
+   FALSE for the code as it is: an exact get of an ABSENT key caches (key -> key, no data), and a
+   later FindClosest of that key returns the key itself instead of its predecessor.  Not
+   observable through the handler - every closest-key walk of a request precedes its exact gets
+   of absent keys, and the walk would only strip one label instead of skipping - so this is a
+   remark about the cache, not a finding about answers. *)
+Theorem C02_ctx_cache_transparent_refuted :
+  exists st c key, uniq st /\ get_sound st c /\ c = snd (get_v2 st [] key) /\
+    fst (find_closest st c key) <> seek_prev st key.
+Proof. exact ctx_find_closest_not_transparent. Qed.
+Print Assumptions C02_ctx_cache_transparent_refuted.
+
+(* the closest-key walk (sortedDataReader.find, used by IsAuthoritative and FindAnswer of the v2
+   reader) computes the same client state with ANY closest-sound cache as with no cache at all
+   ([find_pure]: every FindClosest and get goes to the database), panics exactly when that does,
+   and leaves a closest-sound cache for the next walk of the request *)
+Theorem C02_find_cache_free : forall st, uniq st ->
+  forall P parse pre post q loc p c,
+  closest_sound st c ->
+  agrees st P (find st P parse pre post q loc p c) (find_pure st P parse pre post q loc p).
+Proof. exact find_cache_free. Qed.
+Print Assumptions C02_find_cache_free.
+
+(* the reader builds the name part of a v2 key with reverseZoneNameToBuffer, whose index is a Go
+   byte; the compiler writes Spec/Rows.rpack.  On every wire-valid name (labels 1..63 bytes, at most
+   255 bytes) the byte arithmetic does not wrap, nothing panics and the two coincide - so the exact
+   gets of the v2 reader (FindSOA, GetNs, additional section) probe the key the compiler wrote *)
+Theorem C02_reverse_zone_name : forall n, wf_name n -> nlen (pack n) <= 255 ->
+  reverse_zone_name (pack n) = Val (rpack n).
+Proof. exact reverse_zone_name_pack. Qed.
+Print Assumptions C02_reverse_zone_name.
+
+(* C02_v2_equals_v1_partial.  The statement targeted by DESIGN.md,
+     forall recs q L, serve RDB2 (store_v2 recs) q L ~ serve RDB1 (store_v1 recs) q L,
+   is NOT proved.  Proved: the cache is out of the picture (theorems above), so what remains is
+   the cache-free walk [find_pure] against the label-by-label loops; the missing lemma is
+   seek_skip_sound (a closest key that shares k labels with the name proves that no ancestor with
+   more than k labels has a key).
+   The differential run compares the three real servers pairwise on every query (Run/C02.v) and
+   the v2 model against the RocksDB-v2 server (Run/Core.v). *)
+
+Example C02_example :
+  let st := [([0; 111; 0; 0; 0], [[9]]); ([0; 111; 1; 97; 0; 0; 0], [[1]; [2]])] in
+  uniq st /\ closest_sound st [] /\
+  seek_prev st [0; 111; 1; 97; 1; 98; 0; 0; 0] = Some ([0; 111; 1; 97; 0; 0; 0], [[1]; [2]]).
+Proof.
+  split; [|split; [apply closest_sound_nil | vm_compute; reflexivity]].
+  intros k v [H|[H|[]]]; inversion H; subst; reflexivity.
+Qed.
+Print Assumptions C02_example.
